@@ -47,6 +47,11 @@ func c20Kinds() []c20Kind {
 		{"window-changed-cols-star", "SELECT k, sum(a) AS s, changed_cols(\"c_\", false, *) FROM stream GROUP BY k, CountingWindow(2)", false, false},
 		{"window-analytic", "SELECT k, acc_sum(sum(a)) AS t, lag(avg(a)) AS p, latest(max(a)) AS l FROM stream GROUP BY k, CountingWindow(2)", false, false},
 		{"window-changed-col", "SELECT k, changed_col(true, sum(a)) AS cs FROM stream GROUP BY k, CountingWindow(1)", false, false},
+		// aggregates over an expression argument, for every window kind (the argument is evaluated per row when the window fires)
+		{"sliding-expr-agg", "SELECT k, sum(a * 2) AS total, max(d.x + 1) AS mx FROM stream GROUP BY k, SlidingWindow('4s','2s') WITH (TIMESTAMP='ts', TIMEUNIT='ms')", false, false},
+		{"tumbling-expr-agg", "SELECT k, sum(a * 2) AS total, max(d.x + 1) AS mx FROM stream GROUP BY k, TumblingWindow('2s') WITH (TIMESTAMP='ts', TIMEUNIT='ms')", false, false},
+		{"counting-expr-agg", "SELECT k, sum(a * 2) AS total, max(d.x + 1) AS mx FROM stream GROUP BY k, CountingWindow(2)", false, false},
+		{"session-expr-agg", "SELECT k, sum(a * 2) AS total FROM stream GROUP BY k, SessionWindow('2s') WITH (TIMESTAMP='ts', TIMEUNIT='ms')", false, false},
 		// post-aggregation stages that build their output in buffers of their own
 		{"window-distinct", "SELECT DISTINCT k, sum(a) AS s FROM stream GROUP BY k, CountingWindow(2)", false, false},
 		{"window-order-limit", "SELECT k, sum(a) AS s, count(*) AS c FROM stream GROUP BY k, CountingWindow(2) ORDER BY s DESC LIMIT 1", false, false},
@@ -414,7 +419,7 @@ func (c20) Run(u fw.Unit) fw.Result {
 func (c20) Describe(tier string) fw.Description {
 	return fw.Description{
 		Level: "model_checking",
-		Rule: "(a) immutability: 23 query kinds (incl. analytic functions over window results, DISTINCT / ORDER BY / HAVING over several batches) (unnest over scalars and over objects, projection, *, SELECT-analytic, WHERE-analytic with and without OVER, OVER, changed_cols, JOIN, function-expression group key, counting, tumbling, session, global window, MATCH_RECOGNIZE, CASE) x {Emit, EmitSync} x rows with nested maps and slices: a deep snapshot of every caller map before the call must equal it after quiescence, and every batch handed to a sink must still read the same at the end; (b) independence: 14 instance pairs (same SQL; nth_value(v,1) vs (v,2); percentile(v,0) vs (v,1); the same expression text over differently typed rows; analytic; LIKE; CASE vs string concatenation) x all input sequences of length 1..L per instance x ALL interleavings of the two inputs at operation granularity in one process (instances created up front or each at its first input; one worker process per pair, baselines taken first and again at the end), compared with each instance alone after VerifResetGlobals(); non-trivial = some output exists",
+		Rule: "(a) immutability: 27 query kinds (incl. analytic functions over window results, DISTINCT / ORDER BY / HAVING over several batches) (unnest over scalars and over objects, projection, *, SELECT-analytic, WHERE-analytic with and without OVER, OVER, changed_cols, JOIN, function-expression group key, counting, tumbling, session, global window, MATCH_RECOGNIZE, CASE) x {Emit, EmitSync} x rows with nested maps and slices: a deep snapshot of every caller map before the call must equal it after quiescence, and every batch handed to a sink must still read the same at the end; (b) independence: 14 instance pairs (same SQL; nth_value(v,1) vs (v,2); percentile(v,0) vs (v,1); the same expression text over differently typed rows; analytic; LIKE; CASE vs string concatenation) x all input sequences of length 1..L per instance x ALL interleavings of the two inputs at operation granularity in one process (instances created up front or each at its first input; one worker process per pair, baselines taken first and again at the end), compared with each instance alone after VerifResetGlobals(); non-trivial = some output exists",
 		Bounds:      map[string]any{"max_len_per_instance": map[string]int{"quick": 2, "thorough": 3}},
 		Assumptions: []string{"interleaving at Emit granularity under the eager deterministic schedule; finer interleavings of two instances' goroutines are not explored (they share only the function registry and the expression caches, whose internal synchronisation is in the quiet packages)"},
 	}
